@@ -33,8 +33,13 @@ def isPanicEv : Ev → Bool
   | .startEnd .panic => true | .handlerEnd _ .panic => true | .runEnd _ .panic => true
   | .stopEnd .panic => true | _ => false
 
+def issuedOf (oid : Nat) : Ev → Option (OpKind × Option Nat × Nat)
+  | .issued o k t a => if o = oid then some (k, t, a) else none
+  | _ => none
+
+/-- (kind, timeout, issue instant) of operation `oid`, read off its `issued` event -/
 def opOf (ev : List Ev) (oid : Nat) : Option (OpKind × Option Nat × Nat) :=
-  ev.findSome? fun | .issued o k t a => if o == oid then some (k, t, a) else none | _ => none
+  ev.findSome? (issuedOf oid)
 
 def acceptedIdx (ev : List Ev) (oid : Nat) : Option Nat :=
   ev.findSome? fun | .accepted o i => if o == oid then some i else none | _ => none
@@ -413,17 +418,31 @@ end C09
 /-! ### C10 — timeouts are exact -/
 namespace C10
 
-def ok (t : Trace) : Bool :=
-  t.ev.all fun
+/-- `Err(Timeout)` is returned only by an operation that was given a timeout, and never before its
+    deadline (issue instant + timeout) -/
+def neverEarly (ev : List Ev) : Bool :=
+  ev.all fun
+    | .ret oid .timeout at_ =>
+      (match opOf ev oid with
+       | some (_, some d, t0) => decide (t0 + d ≤ at_)
+       | _ => false)
+    | _ => true
+
+/-- on the virtual clock of the paused runtime: a timeout fires exactly at the deadline, and every
+    other outcome of a timed operation arrives no later than the deadline -/
+def exact (ev : List Ev) : Bool :=
+  ev.all fun
     | .ret oid r at_ =>
-      match opOf t.ev oid with
+      match opOf ev oid with
       | some (_, some d, t0) =>
         (match r with
-         | .timeout => decide (at_ = t0 + d)          -- never early, never late (virtual clock)
+         | .timeout => decide (at_ = t0 + d)
          | _ => decide (at_ ≤ t0 + d))
-      | some (_, none, _) => r != .timeout            -- only operations given a timeout time out
+      | some (_, none, _) => r != .timeout
       | none => false
     | _ => true
+
+def ok (t : Trace) : Bool := neverEarly t.ev && exact t.ev
 end C10
 
 /-! ### C11 — is_alive tells the truth (strong handles) -/
@@ -454,27 +473,34 @@ def reasonOf : Res → Option Reason
   | .receive => some .replyDropped
   | _ => none
 
-/-- dead letters and failing returns correspond one to one, adjacent and with matching reason;
-    stop()/kill() never record one -/
+/-- state: `none` = rejected; `some pend` = accepted so far, `pend` = a dead letter whose failing
+    return must be the very next event -/
+def step (st : Option (Option (Nat × Reason))) (e : Ev) : Option (Option (Nat × Reason)) :=
+  st.bind fun pend =>
+    match e, pend with
+    | .dead o w, none => some (some (o, w))
+    | .dead _ _, some _ => none
+    | .ret o r _, some (o', w) => if o = o' ∧ reasonOf r = some w then some none else none
+    | .ret _ r _, none => if reasonOf r = none then some none else none
+    | _, none => some none
+    | _, some _ => none
+
+/-- dead letters and failing returns correspond one to one: every dead letter is immediately
+    followed by the failing return of the same operation with the matching reason, and every
+    failing return is immediately preceded by its dead letter -/
+def paired (ev : List Ev) : Bool := ev.foldl step (some none) == some none
+
+def deadLetters (ev : List Ev) : List (Nat × Reason) :=
+  ev.filterMap fun | .dead o w => some (o, w) | _ => none
+
+def failures (ev : List Ev) : List (Nat × Reason) :=
+  ev.filterMap fun | .ret o r _ => (reasonOf r).map (fun w => (o, w)) | _ => none
+
+/-- stop()/kill() never record a dead letter -/
+def onlyEnvOps (ev : List Ev) : Bool := ev.all (fun | .dead o _ => isEnvOp ev o | _ => true)
+
 def ok (t : Trace) : Bool :=
-  let rec go : List Ev → Bool
-    | .dead o w :: .ret o' r a :: rest => o == o' && reasonOf r == some w && go (.ret o' Res.ok a :: rest)
-    | .dead _ _ :: _ => false
-    | .ret _ r _ :: rest => go rest && true && (match r with | _ => true)
-    | _ :: rest => go rest
-    | [] => true
-  -- every failing return is preceded by its dead letter
-  let rec pre (prev : Option Ev) : List Ev → Bool
-    | [] => true
-    | e :: es =>
-      (match e with
-       | .ret o r _ =>
-         (match reasonOf r with
-          | some w => prev == some (.dead o w)
-          | none => true)
-       | _ => true) && pre (some e) es
-  go t.ev && pre none t.ev &&
-  t.ev.all (fun | .dead o _ => isEnvOp t.ev o | _ => true)
+  paired t.ev && onlyEnvOps t.ev && (deadLetters t.ev == failures t.ev)
 end C13
 
 end Rsactor.Monitor
